@@ -23,6 +23,12 @@ MEMPOOL_HARNESSES = [
                      'REAL MemPool: removeAll forgets what went into a block; it never reappears in later generatePopData'],
      'rungs': {'quick': [{'defines': ['NSUB=4'], 'bound': 'VBK blocks from a miner tree (chain of 4, a fork of 2) submitted in every order of 4 submissions (with repeats), then generatePopData, block acceptance, removeAll, generatePopData', 'timeout': 280}],
                'thorough': [{'defines': ['NSUB=6'], 'bound': 'every sequence of 6 submissions', 'timeout': 3000}, {'defines': ['NSUB=5'], 'bound': 'every sequence of 5 submissions', 'timeout': 900}]}},
+    {'name': 'h_mempool_submit', 'src': 'real/h_mempool.cpp', 'entry': 'h_mempool', 'repo_srcs': srcsets_real.REAL, 'defines': ['MODE_SUBMIT'], 'covers': [1, 2, 3, 4], 'jobs': 16, 'override': True,
+     'obligations': ['REAL MemPool through the natural submit<VbkBlock|ATV|VTB> paths (stateless + stateful checks; statelessly valid hand-made ATV and VTB with real ids / SHA-256 / Merkle roots, signature and address-derivation verdicts are link-level oracles answering valid): after every submit the per-type maps, the VBK relations and isKnown describe the same set, each payload is connected XOR in flight, nothing is lost or invented',
+                     'generatePopData connects in-flight payloads whose VBK context has been submitted (any order), offers them, is side-effect free on the three trees, respects the limits, passes the stateless checks, and a next ALT block carrying exactly it connects and activates (C12)',
+                     'removeAll forgets the payloads of the accepted block, they never reappear, and the next generatePopData is again valid for the next block; no freed memory is touched anywhere (engine obligation)'],
+     'rungs': {'quick': [{'defines': ['NSUB=3'], 'bound': 'payload universe {VBK2, VBK3, VBK4, ATV A (in VBK3, endorses ALT 2), VTB V (in VBK4, endorses VBK2 in BTC 2)}; every sequence of 3 submissions (repeats allowed), then generatePopData, block, removeAll, generatePopData, block', 'timeout': 280}],
+               'thorough': [{'defines': ['NSUB=5'], 'bound': 'every sequence of 5 submissions', 'timeout': 3000}, {'defines': ['NSUB=4'], 'bound': 'every sequence of 4 submissions', 'timeout': 900}]}},
     {'name': 'h_mempool_stale', 'src': 'real/h_mempool.cpp', 'entry': 'h_mempool', 'repo_srcs': srcsets_real.REAL, 'defines': ['MODE_STALE'], 'covers': [1], 'jobs': 2,
      'obligations': ['REAL MemPool::cleanUp on a pool holding 1..2 connected ATVs whose VBK block fell behind the old-blocks window: no freed memory is touched (engine use-after-free check), stale payloads are forgotten'],
      'rungs': {'quick': [{'bound': '1..2 connected ATVs on a VBK block 3 blocks behind the VBK tip, old-blocks window 1 (pool state constructed directly: what a successful submit<ATV> leaves)', 'timeout': 200}], 'thorough': [{'bound': 'as quick', 'timeout': 400}]}},
